@@ -24,6 +24,14 @@ let quorum_ops check raw (rest : string list) =
                               string_of_z (Quorum.trust_count ps)] in
   check "O" raw (Stdlib.String.concat " " keysl ^ " ; " ^ Stdlib.String.concat " " tail) (mk ^ " ; " ^ mt)
 
+(* M nh nb H .. B .. L <list> => median mutated *)
+let median_case check raw (rest : string list) =
+  let (_, after) = take_until "L" rest in
+  let (l, res) = take_until "=>" after in
+  let m = Median.median (Stdlib.List.map z_of_string l) in
+  check "M" raw (match res with r :: _ -> r | [] -> "?") (string_of_z m)
+
 let dispatch check diff (k : string) (toks : string list) (raw : string) =
+  if k = "M" then median_case check raw (Stdlib.List.tl toks) else
   if Hgdrv.handle check diff toks raw then ()
   else failwith ("unknown case kind " ^ k)
